@@ -339,7 +339,7 @@ impl InlineTable {
         }
     }
     /// `Item::None` left behind by mutable indexing is not an entry
-    fn remove_placeholder(&mut self, key: &str) {
+    pub(crate) fn remove_placeholder(&mut self, key: &str) {
         if self.items.get(key).map_or(false, |value| value.is_none()) {
             self.items.shift_remove(key);
         }
@@ -408,6 +408,8 @@ impl InlineTable {
     /// Inserts a key-value pair into the map.
     pub fn insert(&mut self, key: impl Into<InternalString>, value: Value) -> Option<Value> {
         use indexmap::map::MutableEntryKey;
+        let key = key.into();
+        self.remove_placeholder(&key);
         let key = Key::new(key);
         let value = Item::Value(value);
         match self.items.entry(key.clone()) {
@@ -426,6 +428,7 @@ impl InlineTable {
     /// Inserts a key-value pair into the map.
     pub fn insert_formatted(&mut self, key: &Key, value: Value) -> Option<Value> {
         use indexmap::map::MutableEntryKey;
+        self.remove_placeholder(key.get());
         let value = Item::Value(value);
         match self.items.entry(key.clone()) {
             indexmap::map::Entry::Occupied(mut entry) => {
@@ -484,6 +487,7 @@ impl<K: Into<Key>, V: Into<Value>> Extend<(K, V)> for InlineTable {
         for (key, value) in iter {
             let key = key.into();
             let value = Item::Value(value.into());
+            self.remove_placeholder(key.get());
             self.items.insert(key, value);
         }
     }
